@@ -28,6 +28,8 @@ from .common import body_no_doc, fail
 
 _LOG_ROOTS = ("logging", "logger", "log", "_logger", "LOGGER", "_log")
 _VIEW_METHODS = ("view", "reshape", "ravel", "squeeze", "transpose", "swapaxes")
+_MUTATORS = ("update", "pop", "popitem", "clear", "setdefault", "append", "extend", "insert", "remove", "sort", "reverse",
+             "add", "discard", "__setitem__", "__delitem__", "__ior__")
 _VIEW_ATTRS = ("T", "values", "real", "imag", "flat")
 
 
@@ -126,6 +128,14 @@ class Sym:
         self.cls = cls
         self.keep = set(keep)              # callee names the matcher recognises itself: never inlined
         self.consts = module_constants(tree)
+        self.imports = imported_names(tree)
+        self.plain_imports = {a.name for n in ast.walk(tree) if isinstance(n, ast.Import) for a in n.names if not a.asname}
+        # names that are ALSO bound otherwise somewhere in the module (def / class / assignment / parameter): an
+        # imported name that is shadowed anywhere is not trusted to denote the import
+        self.local_defs = {n.name for n in ast.walk(tree) if isinstance(n, (ast.FunctionDef, ast.AsyncFunctionDef, ast.ClassDef))}
+        self.local_defs |= {n.id for n in ast.walk(tree) if isinstance(n, ast.Name) and isinstance(n.ctx, (ast.Store, ast.Del))}
+        self.local_defs |= {a.arg for n in ast.walk(tree) if isinstance(n, ast.arguments)
+                            for a in n.posonlyargs + n.args + n.kwonlyargs + [x for x in (n.vararg, n.kwarg) if x]}
         self.funcs: dict[str, list[ast.FunctionDef]] = {}
         for st in tree.body:
             if isinstance(st, ast.FunctionDef):
@@ -156,10 +166,16 @@ class Sym:
                     return copy.deepcopy(self.consts[n.id])
             return copy.deepcopy(n)
         if isinstance(n, ast.Call):
+            f0 = n.func
+            if (isinstance(f0, ast.Attribute) and isinstance(f0.value, ast.Name) and f0.value.id not in shadow
+                    and isinstance(env.get(f0.value.id), (ast.Dict, ast.List, ast.Set, ast.ListComp, ast.DictComp, ast.SetComp))
+                    and f0.attr in _MUTATORS):
+                fail(n, f"a local bound to a display is updated in place ({f0.value.id}.{f0.attr})")
             new = ast.Call(func=self._ex(n.func, env, shadow), args=[self._ex(a, env, shadow) for a in n.args],
                            keywords=[ast.keyword(arg=k.arg, value=self._ex(k.value, env, shadow)) for k in n.keywords])
             ast.copy_location(new, n)
-            got = self._inline(n, new)
+            new = self._norm_call(new)
+            got = self._inline(new, new)
             return got if got is not None else new
         new = copy.copy(n)
         for field, old in ast.iter_fields(n):
@@ -167,6 +183,55 @@ class Sym:
                 setattr(new, field, [self._ex(x, env, shadow) if isinstance(x, ast.AST) else x for x in old])
             elif isinstance(old, ast.AST):
                 setattr(new, field, self._ex(old, env, shadow))
+        return new
+
+    # ---------------------------------------------------------------------------------------- call shapes
+
+    def _is_partial(self, f: ast.AST) -> bool:
+        """`f` denotes functools.partial (whatever it was imported as)"""
+        if isinstance(f, ast.Name):
+            return self.imports.get(f.id) == ("functools", "partial") and f.id not in self.local_defs
+        if isinstance(f, ast.Attribute) and f.attr == "partial" and isinstance(f.value, ast.Name):
+            mod, orig = self.imports.get(f.value.id, (None, None))
+            return (f.value.id == "functools" and f.value.id in self.plain_imports) or (mod == "functools" and orig is None)
+        return False
+
+    def _norm_call(self, call: ast.Call) -> ast.Call:
+        """Equivalent call shapes (arguments are already expanded, so a name bound to a display IS the display):
+          * `f(*(a, b), c)` / `f(*[a, b], c)`                    ->  `f(a, b, c)`
+          * `f(**{"k": v, ..}, m=w)` / `f(**dict(k=v), m=w)`      ->  `f(k=v, .., m=w)`   (string-literal keys, no repeat)
+          * `functools.partial(g, a, k=v)(b, m=w)`                ->  `g(a, b, k=v, m=w)` (a keyword of the call wins)
+        Anything else about star arguments stays as it is (and the matchers fail closed on it)."""
+        args: list[ast.AST] = []
+        for a in call.args:
+            if isinstance(a, ast.Starred) and isinstance(a.value, (ast.Tuple, ast.List)) and not any(
+                    isinstance(e, ast.Starred) for e in a.value.elts):
+                args.extend(a.value.elts)
+            else:
+                args.append(a)
+        kws: list[ast.keyword] = []
+        for k in call.keywords:
+            d = k.value
+            if k.arg is None and isinstance(d, ast.Dict) and all(
+                    isinstance(x, ast.Constant) and isinstance(x.value, str) and x.value.isidentifier() for x in d.keys):
+                kws.extend(ast.keyword(arg=x.value, value=v) for x, v in zip(d.keys, d.values))
+            elif (k.arg is None and isinstance(d, ast.Call) and isinstance(d.func, ast.Name) and d.func.id == "dict"
+                  and "dict" not in self.local_defs and not d.args and all(x.arg is not None for x in d.keywords)):
+                kws.extend(ast.keyword(arg=x.arg, value=x.value) for x in d.keywords)
+            else:
+                kws.append(k)
+        names = [k.arg for k in kws if k.arg is not None]
+        if len(names) != len(set(names)):
+            fail(call, "a keyword argument is given twice (TypeError at run time)")
+        new = ast.copy_location(ast.Call(func=call.func, args=args, keywords=kws), call)
+        f = new.func
+        if (isinstance(f, ast.Call) and self._is_partial(f.func) and f.args
+                and not any(isinstance(a, ast.Starred) for a in f.args + new.args)
+                and all(k.arg is not None for k in f.keywords + new.keywords)):
+            later = {k.arg for k in new.keywords}
+            merged = [k for k in f.keywords if k.arg not in later] + list(new.keywords)
+            inner = ast.copy_location(ast.Call(func=f.args[0], args=list(f.args[1:]) + list(new.args), keywords=merged), call)
+            return self._norm_call(inner)
         return new
 
     # ---------------------------------------------------------------------------------------- helper calls
